@@ -22,6 +22,7 @@ RULE = (
     'all K^5 assignments; rigid drift signals from a table (steps in {-0.2,0,0.15} on every axis); selection forms '
     '{none, fixed "S", ["S"], ["S","P"], "P", set, tuple, list with repeated names, floating str, [list], [list,"P"], set, frozenset, tuple}; source in position or displacement mode, correction applied again immediately; species as Species / Element / Species with oxidation state; '
     'LATTICES; frames 4 (quick) / 4-5 (thorough); distinct = distinct corrected displacement arrays'
+    '; drift set includes a closed loop, pattern set an out-and-back atom; six time steps (bit-for-bit comparison, also after a second correction)'
 )
 LEVEL_TEXT = (
     'Bounded-exhaustive over track assignments, drift signals, selection forms, species object types and '
